@@ -219,19 +219,43 @@ def build_T18(tree):
         types.append(gt_attrs[k][1])
     out.append(lean_table('indexListTypes', 'List String', types, doc='graphic types that get a LongPrimitivePointIndexList'))
     texts = [_norm(s) for s in idx_if.body]
-    want = ['spans=[item.shape[0]*dimensionalityforitemingraphic_data]',
-            'point_indices=np.cumsum(spans,dtype=np.int32)+1',
-            'point_indices=np.concatenate([np.array([1],dtype=np.int32),point_indices[:-1]])',
-            'self.LongPrimitivePointIndexList=point_indices.tobytes()']
     comp = idx_if.body[0].value if isinstance(idx_if.body[0], ast.Assign) else None
-    if not (len(texts) == 4 and texts[1:] == want[1:] and isinstance(comp, ast.ListComp) and len(comp.generators) == 1
+    if not (len(texts) == 4 and texts[3] == 'self.LongPrimitivePointIndexList=point_indices.tobytes()'
+            and isinstance(comp, ast.ListComp) and len(comp.generators) == 1
             and _norm(comp.generators[0].iter) == 'graphic_data' and _norm(comp.generators[0].target) == 'item' and not comp.generators[0].ifs):
-        raise Unsupported('index list construction changed shape (spans / cumsum + 1 / [1] ++ [:-1] / tobytes)')
+        raise Unsupported('index list construction changed shape (spans / cumsum / concatenate / tobytes)')
+    # the three expressions of the construction: `cumsum(spans) + c`, `np.array([f])`, `point_indices[:-k]`
+    cs = idx_if.body[1].value if isinstance(idx_if.body[1], ast.Assign) and _norm(idx_if.body[1].targets[0]) == 'point_indices' else None
+    il_offset = None
+    if isinstance(cs, ast.BinOp) and isinstance(cs.op, ast.Add) and _norm(cs.left) == 'np.cumsum(spans,dtype=np.int32)' \
+            and isinstance(cs.right, ast.Constant) and isinstance(cs.right.value, int):
+        il_offset = cs.right.value
+    elif cs is not None and _norm(cs) == 'np.cumsum(spans,dtype=np.int32)':
+        il_offset = 0
+    cc = idx_if.body[2].value if isinstance(idx_if.body[2], ast.Assign) and _norm(idx_if.body[2].targets[0]) == 'point_indices' else None
+    il_first = il_drop = None
+    if isinstance(cc, ast.Call) and _norm(cc.func) == 'np.concatenate' and len(cc.args) == 1 and isinstance(cc.args[0], ast.List) \
+            and len(cc.args[0].elts) == 2:
+        a0, a1 = cc.args[0].elts
+        if isinstance(a0, ast.Call) and _norm(a0.func) == 'np.array' and isinstance(a0.args[0], ast.List) and len(a0.args[0].elts) == 1 \
+                and isinstance(a0.args[0].elts[0], ast.Constant) and isinstance(a0.args[0].elts[0].value, int):
+            il_first = a0.args[0].elts[0].value
+        if isinstance(a1, ast.Subscript) and _norm(a1.value) == 'point_indices' and isinstance(a1.slice, ast.Slice) and a1.slice.lower is None \
+                and a1.slice.step is None and isinstance(a1.slice.upper, ast.UnaryOp) and isinstance(a1.slice.upper.op, ast.USub) \
+                and isinstance(a1.slice.upper.operand, ast.Constant):
+            il_drop = int(a1.slice.upper.operand.value)
+        elif isinstance(a1, ast.Name) and a1.id == 'point_indices':
+            il_drop = 0
+    if il_offset is None or il_first is None or il_drop is None:
+        raise Unsupported('index list construction is no longer concatenate([array([f]), (cumsum(spans) + c)[:-k]])')
     blk = [ast.Return(value=comp.elt)]
     ast.fix_missing_locations(blk[0])
     out.append(translate_block(blk, 'indexSpan', [('dimensionality', 'int')], {'item.shape[0]': ('int', 'numCoords')},
                                doc='element of `spans`: number of stored coordinate values of one annotation'))
-    out.append('/-- the index list is `[1] ++ (cumsum(spans) + 1)[:-1]`: one-based, first entry 1 -/\ndef indexListBase : Int := 1')
+    out.append(f'/-- the index list is `[f] ++ (cumsum(spans) + c)[:-k]`: this is `f`, the literal of `np.array([f])` -/\n'
+               f'def indexListBase : Int := {il_first}')
+    out.append(f'/-- `c` of `np.cumsum(spans) + c` -/\ndef indexListCumsumOffset : Int := {il_offset}')
+    out.append(f'/-- `k` of `point_indices[:-k]` -/\ndef indexListDropLast : Nat := {il_drop}')
 
     # ---------------- decode plan
     ggd = find_func(tree, 'AnnotationGroup.get_graphic_data')
@@ -378,9 +402,17 @@ def build_T18(tree):
         raise Unsupported('get_values: index-list branch / count guard not found')
     tb = [_norm(s) for s in has_if[0].body]
     eb = [_norm(s) for s in has_if[0].orelse]
-    if not (len(tb) == 2 and tb[0].startswith('stored_indices=np.frombuffer(item.AnnotationIndexList') and tb[1] == 'stored_indices=stored_indices-1'
+    if not (len(tb) in (1, 2) and tb[0].startswith('stored_indices=np.frombuffer(item.AnnotationIndexList')
             and eb == ['stored_indices=np.arange(number_of_annotations)']):
         raise Unsupported('get_values: index preparation changed shape')
+    meas_read = 0
+    if len(tb) == 2:
+        st2 = has_if[0].body[1]
+        if not (isinstance(st2, ast.Assign) and isinstance(st2.value, ast.BinOp) and isinstance(st2.value.op, ast.Sub)
+                and _norm(st2.value.left) == 'stored_indices' and isinstance(st2.value.right, ast.Constant)
+                and isinstance(st2.value.right.value, int)):
+            raise Unsupported('get_values: stored indices are no longer made zero-based by `stored_indices - c`')
+        meas_read = st2.value.right.value
     sel = ast.parse("if has_index_list:\n    n_indices = n_index_list\nelse:\n    n_indices = number_of_annotations").body[0]
     blk = [sel] + _fresh(guard, {'len(stored_indices)': 'n_indices'}) + [ast.parse('return n_indices').body[0]]
     for s in blk:
@@ -390,10 +422,23 @@ def build_T18(tree):
                                {'len(stored_values)': ('int', 'nStoredValues')},
                                doc='`Measurements.get_values`: indices are the stored list minus one, or `arange(n)`; the number of '
                                    'stored values must equal the number of indices'))
-    out.append('/-- stored annotation indices are one-based (`+ 1` when written, `- 1` when read) -/\ndef measIndexBase : Int := 1')
     mi = find_func(tree, 'Measurements.__init__')
-    if 'stored_indices=(np.where(~is_nan)[0]+1).astype(np.int32)' not in _norm(ast.Module(body=mi.body, type_ignores=[])):
-        raise Unsupported('Measurements.__init__: stored_indices is no longer where(~is_nan)[0] + 1')
+    meas_write = None
+    for node in ast.walk(mi):
+        if isinstance(node, ast.Assign) and _norm(node.targets[0]) == 'stored_indices':
+            v = node.value
+            if isinstance(v, ast.Call) and isinstance(v.func, ast.Attribute) and v.func.attr == 'astype' and _norm(v.args[0]) == 'np.int32':
+                inner = v.func.value
+                if isinstance(inner, ast.BinOp) and isinstance(inner.op, ast.Add) and _norm(inner.left) == 'np.where(~is_nan)[0]' \
+                        and isinstance(inner.right, ast.Constant) and isinstance(inner.right.value, int):
+                    meas_write = inner.right.value
+                elif _norm(inner) == 'np.where(~is_nan)[0]':
+                    meas_write = 0
+    if meas_write is None:
+        raise Unsupported('Measurements.__init__: stored_indices is no longer (np.where(~is_nan)[0] + c).astype(np.int32)')
+    out.append(f'/-- `c` of `np.where(~is_nan)[0] + c` in `Measurements.__init__` (what the model writes with) -/\n'
+               f'def measIndexBase : Int := {meas_write}')
+    out.append(f'/-- `c` of `stored_indices - c` in `Measurements.get_values` -/\ndef measReadOffset : Int := {meas_read}')
     shas.append(span_sha(strip_doc(mi.body)))
     return '\n\n'.join(out), hashlib.sha256(''.join(shas).encode()).hexdigest()
 
@@ -429,11 +474,39 @@ def build_T18s(tree):
     if conds != ['int(item.AnnotationGroupNumber)==int(number)', 'str(item.AnnotationGroupUID)==str(uid)']:
         raise Unsupported(f'get_annotation_group: match conditions changed: {conds}')
     filt_text, filt_sha = _build_filter(tree)
+    sop_text, sop_sha = _build_sop_numbering(tree)
+    filt_text = filt_text + '\n\n' + sop_text
+    filt_sha = hashlib.sha256((filt_sha + sop_sha).encode()).hexdigest()
     text = translate_block(blk, 'groupLookupDecision', [('number', 'optint'), ('uid', 'optint')], {'len(items)': ('int', 'nItems')},
                            doc='`get_annotation_group`: TypeError without a key; 1 = the groups whose number matches are used, '
                                '2 = the groups whose uid matches (`uid` stands for any non-None uid); ValueError unless exactly one '
                                '(`nItems` = number of matching items of the branch taken)')
     return text + '\n\n' + filt_text, span_sha(body) + filt_sha[:16]
+
+
+def _build_sop_numbering(tree):
+    """body of `for i, group in enumerate(annotation_groups)` in `MicroscopyBulkSimpleAnnotations.__init__`"""
+    fn = find_func(tree, 'MicroscopyBulkSimpleAnnotations.__init__')
+    loops = [n for n in ast.walk(fn) if isinstance(n, ast.For) and _norm(n.iter) == 'enumerate(annotation_groups)'
+             and _norm(n.target) == '(i,group)']
+    if len(loops) != 1:
+        raise Unsupported('SOP constructor: loop `for i, group in enumerate(annotation_groups)` not found')
+    body = loops[0].body
+    blk = []
+    for st in _fresh(body):
+        if isinstance(st, ast.Expr) and _norm(st.value) == 'self.AnnotationGroupSequence.append(group)':
+            continue
+        blk.append(st)
+    if len(blk) != len(body) - 1 or _norm(body[-1]) != 'self.AnnotationGroupSequence.append(group)':
+        raise Unsupported('SOP constructor: the loop no longer ends in self.AnnotationGroupSequence.append(group)')
+    blk.append(ast.parse('return 0').body[0])
+    for s2 in blk:
+        ast.fix_missing_locations(s2)
+    text = translate_block(blk, 'sopGroupCheck', [('i', 'int')],
+                           {'isinstance(group, AnnotationGroup)': ('bool', 'isGroup'), 'group.AnnotationGroupNumber': ('int', 'number')},
+                           doc='loop body of the SOP class constructor for the group at zero-based position `i`: TypeError for a '
+                               'non-group, ValueError unless its number is the expected one')
+    return text, span_sha(body)
 
 
 def _build_filter(tree):
